@@ -156,6 +156,11 @@ def mixed(run, n):
             special = [v for v in vals if type(v[1]).__name__ in ("UAEnumeration", "UAListOf")]
             if special:
                 rows.append(("s", rng.choice(special)[1], rng.choice(list(names)), "UAVariable"))
+        if rows and rng.random() < 0.3:
+            # several variables of the same kind (same value class, same declared type): each offender is named
+            for j in range(rng.randint(1, 3)):
+                nm, obj, dt, cls = rng.choice(rows)
+                rows.append(("%s_again%d" % (nm, j), obj, dt, cls))
         run.case({"mixed": i, "rows": len(rows)}, nontrivial=bool(rows), tag="mixed")
         if not frame_case(run, rows, names) or run.full():
             return
